@@ -377,6 +377,56 @@ func checkC17(p *core.Program, r *core.Report) {
 		} else {
 			r.Fail(R2, key, p.Pos(in.Pos()), "addresses are collected without excluding IPv6 link-local ones")
 		}
+		// ... and only those: an IPv6 address that is not link-local, and every IPv4 address, still reaches the append
+		isV4 := func(b *ssa.BasicBlock, idx int) bool { // edge asserting To4() != nil
+			i := core.BlockIf(b)
+			if i == nil {
+				return false
+			}
+			v, truth := core.Truth(i.Cond, idx)
+			if bo, ok := v.(*ssa.BinOp); ok && (bo.Op == token.EQL || bo.Op == token.NEQ) && core.IsNilConst(bo.Y) {
+				if call, ok := bo.X.(*ssa.Call); ok && core.CalleeName(&call.Call) == "(net.IP).To4" {
+					return truth == (bo.Op == token.NEQ)
+				}
+			}
+			return false
+		}
+		isLL := func(b *ssa.BasicBlock, idx int) bool { // edge asserting IsLinkLocalUnicast() == true
+			i := core.BlockIf(b)
+			if i == nil {
+				return false
+			}
+			v, truth := core.Truth(i.Cond, idx)
+			call, ok := v.(*ssa.Call)
+			return ok && truth && core.CalleeName(&call.Call) == "(net.IP).IsLinkLocalUnicast"
+		}
+		isV6 := func(b *ssa.BasicBlock, idx int) bool { // edge asserting To4() == nil
+			i := core.BlockIf(b)
+			if i == nil {
+				return false
+			}
+			v, truth := core.Truth(i.Cond, idx)
+			if bo, ok := v.(*ssa.BinOp); ok && (bo.Op == token.EQL || bo.Op == token.NEQ) && core.IsNilConst(bo.Y) {
+				if call, ok := bo.X.(*ssa.Call); ok && core.CalleeName(&call.Call) == "(net.IP).To4" {
+					return truth == (bo.Op == token.EQL)
+				}
+			}
+			return false
+		}
+		fnIn := in.Parent()
+		tgt := func(y ssa.Instruction) bool { return y == in }
+		key = "global IPv6 addresses are kept"
+		if core.PathSearch(fnIn, nil, tgt, nil, orEdges(isV4, isLL)) != nil {
+			r.OK(R2, key, p.Pos(in.Pos()), "an address with To4()==nil that is not link-local reaches the append")
+		} else {
+			r.Fail(R2, key, p.Pos(in.Pos()), "IPv6 addresses that are not link-local never reach the address list (the union of usable addresses loses them)")
+		}
+		key = "IPv4 addresses are kept"
+		if core.PathSearch(fnIn, nil, tgt, nil, isV6) != nil {
+			r.OK(R2, key, p.Pos(in.Pos()), "an IPv4 address reaches the append")
+		} else {
+			r.Fail(R2, key, p.Pos(in.Pos()), "IPv4 addresses never reach the address list")
+		}
 	})
 	if nap < 2 {
 		r.Fail(R2, "address appends", "", "expected the filter append and the merge append")
